@@ -42,6 +42,10 @@ PROFILES = [
     {"name": "Function_configure", "module": "fuzzylite.term", "object": "Function.configure", "file": FILE,
      "params": [("load", "String → Py.M Unit"), ("parameters", "String")], "locals": {"self_formula": "String"},
      "externals": [("self.load()", "(load σ.self_formula)", "Unit", False)]},
+    # ---- library.py: `to_float(x)` of a string is `settings.float_type(x)` = numpy's `float64(text)` = CPython's `float(text)`
+    {"name": "to_float", "module": "fuzzylite.library", "object": "to_float", "file": FILE,
+     "params": [RD, ("x", "String")], "ret": "Num",
+     "externals": [("settings.float_type(_0)", f"({P}.toFloat rd {{0}})", "Num", False, ["String"])]},
     # ---- operation.py
     # the character classes of `str.isalnum` / `str.isnumeric` are parameters; a string is iterated by its characters
     {"name": "Op_as_identifier", "module": "fuzzylite.operation", "object": "Operation.as_identifier", "file": FILE,
